@@ -225,5 +225,16 @@ for key, shape in (((0, slice(None), [1, 3]), (2, 3)), ((slice(None), 0, [1, 3])
             pass
 record("placement rule of separated advanced indices (integers included) for reads and writes", n, bad)
 
+# 14. a float stored into an integer array is truncated toward zero (scalar and array values, whole and partial assignment)
+bad = n = 0
+for v in (2.5, -2.5, 0.9, -0.9, 3.0, 1e-9):
+    a = np.array([10, 20, 30]); a[1] = v
+    n += 1; bad += 0 if a[1] == int(v) else 1
+    a = np.array([10, 20, 30]); a[:] = np.array([v, v, v])
+    n += 1; bad += 0 if list(a) == [int(v)] * 3 else 1
+    a = np.array([10, 20, 30]); a[np.array([True, False, True])] = np.array([v, v])
+    n += 1; bad += 0 if list(a) == [int(v), 20, int(v)] else 1
+record("a float stored into an integer array is truncated toward zero", n, bad)
+
 print(json.dumps({"numpy": np.__version__, "results": results}, indent=1))
 sys.exit(3 if any(r["mismatches"] for r in results) else 0)
